@@ -632,8 +632,71 @@ def icp_trace(kind, dtype_name, steps, seeds):
     return {"cfg": {"kind": "icp", "icp": kind, "dtype": dtype_name, "steps": steps}, "ev": ev}
 
 
+def icp_batch_trace(dtype_name, seeds):
+    """ONE batched ICP call whose items need different numbers of iterations: the same source registered to itself
+    (already aligned) and to two different small exact perturbations.  Every item must be recovered (the documented
+    stepper stops only when ALL losses of the batch meet the condition)."""
+    import numpy as np
+    import torch
+    pp = pypose()
+    dt = tdtype(torch, dtype_name)
+    eps = eps_of(dtype_name)
+    ev = []
+    for seed in seeds:
+        x, y, _, true = icp_instance(np, seed, "basin")
+        n = x.shape[0]
+        y = y[:n]                                   # (the far extra points are dropped: equal sizes inside a batch)
+        g = np.random.default_rng(seed + 1)
+        # a larger perturbation (points move by more than half the grid spacing): the first closest-point assignment is
+        # partly wrong and several iterations are needed; whether ICP reaches the truth from there is decided by
+        # running the item ALONE - only items that are recovered alone are judged for recovery inside the batch
+        R2, t2, _ = np_small_rigid(np, g, 0.3, 0.15)
+        y2 = (x @ R2.T + t2)[g.permutation(n)]
+        trues = [(np.eye(3), np.zeros(3)), true, (R2, t2)]
+        src = torch.tensor(np.stack([x, x, x]), dtype=dt)
+        tgt = torch.tensor(np.stack([x[g.permutation(n)], y, y2]), dtype=dt)
+        alone_ok, alone_steps = [], []
+        try:
+            for k in range(3):
+                st = pp.utils.ReduceToBason(steps=200)
+                ra = pp.module.ICP(stepper=st)(src[k], tgt[k])
+                Rm = ra.matrix().detach().double().numpy()[:3, :3]
+                ta = ra.tensor().detach().double().numpy()[:3]
+                alone_ok.append(bool(max(np.abs(Rm - trues[k][0]).max(), np.abs(ta - trues[k][1]).max()) < 1e4 * eps))
+                alone_steps.append(int(st.steps))
+            r = pp.module.ICP()(src, tgt)
+        except Exception as ex:
+            ev.append({"act": "icp", "seed": seed, "rec": -1, "b": 0, "a": 1 << 30, "exc": True, "msg": repr(ex)[:200]})
+            continue
+        icp_batch_trace.max_steps = max([getattr(icp_batch_trace, "max_steps", 0)] + [s_ for s_, ok in zip(alone_steps, alone_ok) if ok])
+        for k in range(3):
+            xs64, ys64 = src[k].double().numpy(), tgt[k].double().numpy()
+            scale = max(1.0, float(np.abs(xs64).max()), float(np.abs(ys64).max()))
+            e = {"act": "icp", "seed": seed, "rec": -1, "exc": False, "msg": "", "item": k}
+            end = r[k].unsqueeze(-2).Act(src[k]).double().numpy() if r.shape[0] == 3 else np.full((n, 3), np.nan)
+            if not np.isfinite(end).all():
+                e.update({"b": 0, "a": 1 << 30})
+            else:
+                before, after = msd(np, xs64, ys64), msd(np, end, ys64)
+                unit = before + (1024 * eps * scale) ** 2
+                e.update({"b": int(before / unit * MONO_ONE), "a": min(1 << 30, math.ceil(after / unit * MONO_ONE))})
+                row = r[k].tensor().detach().double().numpy()
+                Rm = r[k].matrix().detach().double().numpy()[:3, :3]
+                if alone_ok[k]:
+                    e["rec"] = capint(max(np.abs(Rm - trues[k][0]).max(), np.abs(row[:3] - trues[k][1]).max() / scale) / eps)
+            ev.append(e)
+    ev.append({"act": "done", "n": len(ev)})
+    return {"cfg": {"kind": "icp", "icp": "batch", "dtype": dtype_name, "steps": 0}, "ev": ev}
+
+
 def icp_traces(ctx, per):
     traces = []
+    for dtype_name in ("float64", "float32"):
+        traces.append(icp_batch_trace(dtype_name, [ctx.rng.randrange(1 << 30) for _ in range(5 * per)]))
+    if getattr(icp_batch_trace, "max_steps", 0) < 2:      # (the aligned item of each batch is done after one step)
+        raise MachineryError("batched ICP family is vacuous: no judged item needed more than %d stepper step alone"
+                             % getattr(icp_batch_trace, "max_steps", 0))
+    ctx.extra["icp_batch_max_steps_alone"] = icp_batch_trace.max_steps
     for kind in ("basin", "basin_init", "mono", "init", "planar", "n3"):
         for dtype_name in ("float64", "float32"):
             for steps in (0, 1, 3):        # 0: the default stepper
@@ -781,6 +844,8 @@ def rerun(tr):
     if c["kind"] == "rand":
         return rerun_rand_trace(tr)
     seeds = [e["seed"] for e in tr["ev"] if e["act"] != "done"]
+    if c["kind"] == "icp" and c["icp"] == "batch":
+        return icp_batch_trace(c["dtype"], sorted(set(seeds), key=seeds.index))
     if c["kind"] == "icp":
         return icp_trace(c["icp"], c["dtype"], c["steps"], seeds)
     return epnp_trace(c["refine"], c["n"], c["bshape"], seeds)
